@@ -12,7 +12,7 @@ RULE = ("one evaluation = one (frame list, partition of the concatenated stream)
         "frame (header or payload) / for outgoing: size class boundary; distinct by (frame sizes, content mode, cuts)")
 ASSUMPTIONS = ["frames are non-empty (the quantifier excludes empty frames)",
                "the layer is driven single-threaded, as the network thread does"]
-REQUIRED = ["recv_cases", "send_cases", "cuts_inside_header", "cuts_inside_payload", "oversize_refused", "reconnect_cases", "reconnect_ok", "reconnect_cut:header", "reconnect_cut:payload", "reconnect_closed_inside_delivery", "real_stream_cases", "real_stream_ok", "real_stream:socket", "real_stream:asyncore"]
+REQUIRED = ["recv_cases", "send_cases", "cuts_inside_header", "cuts_inside_payload", "oversize_refused", "reconnect_cases", "reconnect_ok", "reconnect_cut:header", "reconnect_cut:payload", "reconnect_closed_inside_delivery", "real_midframe_cases", "real_midframe_ok", "real_stream_cases", "real_stream_ok", "real_stream:socket", "real_stream:asyncore"]
 EXHAUSTIVE = None
 
 
@@ -280,6 +280,68 @@ def real_stream_case(acc, seed, tag, dispatcher_name):
         srv.stop()
 
 
+def real_disconnect_midframe_case(acc, seed, tag, dispatcher_name):
+    """Real dispatcher: the application disconnects from its own thread while a frame is half received; the peer's remaining bytes
+    still arrive before it closes. A new connection on the same stack must start with a clean framing state: login completes and
+    the following stanzas come up."""
+    from vf import env
+    env.shim_thirdparty()
+    from vf import realnet
+    from yowsup.layers.network import YowNetworkLayer
+    from yowsup.layers.auth import YowAuthenticationProtocolLayer
+    import time as _t
+    r = gen.rng(seed, ID, tag)
+    disp = YowNetworkLayer.DISPATCHER_SOCKET if dispatcher_name == "socket" else YowNetworkLayer.DISPATCHER_ASYNCORE
+    srv = realnet.LoopServer()
+    srv.start()
+    c = realnet.RealClient("c05mid_%s" % tag.replace("/", "_"), srv.port, disp)
+    w = {"dir": "real-disconnect-midframe", "dispatcher": dispatcher_name, "tag": tag}
+    A, D = YowAuthenticationProtocolLayer.EVENT_AUTHED, YowNetworkLayer.EVENT_STATE_DISCONNECTED
+    acc.count("real_midframe_cases")
+    acc.case(["real-midframe", dispatcher_name, tag], nontrivial=True)
+    try:
+        c.start_loop()
+        c.connect_async()
+        if not c.wait(lambda: c.events(A) >= 1, 15):
+            acc.inconc("%s: login over loopback did not complete" % tag)
+            return
+        conn = srv.conns[0]
+        n_before = sum(len(x) for x in list(c.probe_low.received))
+        size = r.choice([30, 300, 5000])
+        k = r.randint(1, size)
+        conn.send_partial_stanza(("ib", {"from": "s.whatsapp.net"}, [("dirty", {"type": "groups", "timestamp": "1600000000"}, [], gen.blob(r, 1) * size)], None), k)
+        c.wait(lambda: sum(len(x) for x in list(c.probe_low.received)) > n_before, 5)
+        c.app.disconnect()
+        if not c.wait(lambda: c.probe_top.event_names().count(D) >= 1, 10):
+            acc.violation("real-midframe:no-disconnected:%s" % dispatcher_name, "a local disconnect while a frame was half received was never announced", w)
+            return
+        t0 = _t.time()
+        while _t.time() - t0 < 5 and any(t.is_alive() for t in c.net_threads):
+            _t.sleep(0.01)
+        _t.sleep(0.05)
+        c.connect_async()
+        if not c.wait(lambda: c.events(A) >= 2, 15):
+            acc.violation("real-midframe:no-relogin:%s" % dispatcher_name, "after a disconnect in the middle of an incoming frame the next connection does not log in (server states %s): "
+                          "bytes of the dead connection were still in the framing layer" % [x.srv.state for x in srv.conns], w)
+            return
+        conn2 = srv.conns[-1]
+        n_app = len(c.app_log)
+        for i in range(3):
+            conn2.send_stanza(("ib", {"from": "s.whatsapp.net"}, [("dirty", {"type": "groups", "timestamp": str(1600000100 + i)}, [], None)], None))
+        if not c.wait(lambda: len(c.app_log) >= n_app + 3, 10):
+            acc.violation("real-midframe:frames-lost:%s" % dispatcher_name, "stanzas sent on the new connection did not all come up (%d of 3)" % (len(c.app_log) - n_app), w)
+            return
+        acc.count("real_midframe_ok")
+    finally:
+        try:
+            c.app.disconnect()
+        except Exception:
+            pass
+        c.stop_loop()
+        _t.sleep(0.05)
+        srv.stop()
+
+
 def exhaustive_family(acc, sizes, modes=(0, 1)):
     L = sum(3 + n for n in sizes)
     for mode in modes:
@@ -382,6 +444,7 @@ def run(spec, acc):
     elif spec["kind"] == "real-stream":
         for i in range(spec["n"]):
             real_stream_case(acc, seed, "rs/%s/%d" % (spec["dispatcher"], i), spec["dispatcher"])
+            real_disconnect_midframe_case(acc, seed, "rm/%s/%d" % (spec["dispatcher"], i), spec["dispatcher"])
         acc.sample({"real_stream": "server writes large frames and bursts over loopback; bytes at the framing layer's input compared with the bytes written", "dispatcher": spec["dispatcher"]})
     elif spec["kind"] == "reconnect":
         for i in range(spec["n"]):
